@@ -68,6 +68,7 @@ FifoOk(c, i) ==
         \A k \in 1..(PosIn(norder, i) - 1) :
             ~(Eligible(c, norder[k]) /\ meta[norder[k]].prio = meta[i].prio)
 
+AllChk == {"fifo", "early", "latency", "ttl", "holder", "content"}
 PlaceFor(m) == IF m.due = NoTime THEN "n" ELSE "d"
 
 -----------------------------------------------------------------------------
@@ -86,17 +87,17 @@ Enqueue(i, m, k) ==
     /\ UNCHANGED <<now, holder, origin, deliv, ret, cons, transit, pend>>
 
 (* C05: a delayed message becomes visible to the normal category only once it is due. *)
-Promote(D) ==
-    /\ D # {} /\ \A i \in D : Live(i) /\ loc[i] = U("d") /\ meta[i].due # NoTime /\ meta[i].due <= now
+Promote(D, chk) ==
+    /\ D # {} /\ \A i \in D : Live(i) /\ loc[i] = U("d") /\ ("early" \in chk => (meta[i].due # NoTime /\ meta[i].due <= now))
     /\ loc' = [i \in Ids |-> IF i \in D THEN U("n") ELSE loc[i]]
     /\ UNCHANGED <<now, st, meta, holder, origin, deliv, ret, cons, norder, transit, pend>>
 
 (* C12: a waiting message whose time-to-live has run out is dead-lettered by the normal-category  *)
 (* consumer that meets it -- and only then (now > exp, so exactly at the expiry it is still live). *)
-Expire(i) ==
-    /\ Live(i) /\ Overdue(i)
+Expire(i, chk) ==
+    /\ Live(i) /\ ("ttl" \in chk => Overdue(i))
     /\ \/ loc[i] = U("n")
-       \/ loc[i] = U("d") /\ DueOk(i)
+       \/ loc[i] = U("d") /\ ("early" \in chk => DueOk(i))
     /\ \E c \in Consumers : cons[c].on /\ cons[c].cat = "n" /\ cons[c].q = meta[i].q
     /\ loc' = [loc EXCEPT ![i] = U("x")]
     /\ norder' = Rm(norder, i)
@@ -109,15 +110,16 @@ Stop(c) == /\ cons' = [cons EXCEPT ![c].on = FALSE]
 
 (* The broker hands message i to consumer c (possibly ahead of the client's consume(): prefetch). *)
 (* C14: only a message that is waiting, i.e. held by nobody.  C05/C12/C15 guards by category.     *)
-TakeGuard(c, i, fifo) ==
+TakeGuard(c, i, chk) ==
     /\ cons[c].on /\ Live(i) /\ Matches(c, i) /\ holder[i] = NoC
-    /\ CASE cons[c].cat = "n" -> /\ (loc[i] = U("n") \/ (loc[i] = U("d") /\ meta[i].due # NoTime /\ meta[i].due <= now))
-                                 /\ ~Overdue(i)
-                                 /\ (fifo => FifoOk(c, i))
+    /\ CASE cons[c].cat = "n" -> /\ (loc[i] = U("n") \/ loc[i] = U("d"))
+                                 /\ ("early" \in chk /\ loc[i] = U("d")) => (meta[i].due # NoTime /\ meta[i].due <= now)
+                                 /\ "ttl" \in chk => ~Overdue(i)
+                                 /\ "fifo" \in chk => FifoOk(c, i)
          [] cons[c].cat = "d" -> loc[i] = U("d")
          [] cons[c].cat = "x" -> loc[i] = U("x")
-Take(c, i, fifo) ==
-    /\ TakeGuard(c, i, fifo)
+Take(c, i, chk) ==
+    /\ TakeGuard(c, i, chk)
     /\ loc' = [loc EXCEPT ![i] = U("p")]
     /\ holder' = [holder EXCEPT ![i] = c]
     /\ origin' = [origin EXCEPT ![i] = cons[c].cat]
@@ -126,8 +128,8 @@ Take(c, i, fifo) ==
     /\ UNCHANGED <<now, st, meta, ret, cons, transit, pend>>
 
 (* consume() of consumer c returns message i to the client: only the holder, only once per take. *)
-Deliver(c, i) ==
-    /\ Held(c, i) /\ ~deliv[i]
+Deliver(c, i, chk) ==
+    /\ "holder" \in chk => (Held(c, i) /\ ~deliv[i])
     /\ deliv' = [deliv EXCEPT ![i] = TRUE]
     /\ UNCHANGED <<now, st, loc, meta, holder, origin, ret, cons, norder, transit, pend>>
 
@@ -147,23 +149,24 @@ Nack(c, i) ==
 (* through the normal category that carries a (passed) due time may physically sit in d again.    *)
 BackPlaces(i) == CASE origin[i] = "n" -> IF meta[i].due # NoTime /\ meta[i].due <= now THEN {"n", "d"}
                                           ELSE IF meta[i].due # NoTime THEN {"d"} ELSE {"n"}
-                   [] origin[i] = "d" -> {"d"}
+                   [] origin[i] = "d" -> IF DueOk(i) THEN {"d", "n"} ELSE {"d"}
                    [] origin[i] = "x" -> {"x"}
 GiveBack(i, k) ==
     /\ k \in BackPlaces(i)
     /\ loc' = [loc EXCEPT ![i] = U(k)]
     /\ holder' = [holder EXCEPT ![i] = NoC]
     /\ ret' = [ret EXCEPT ![i] = TRUE]
+    /\ meta' = [meta EXCEPT ![i].dl = NoTime]     \* the latency clock of C05 is not restarted by a return
     /\ norder' = IF k = "n" /\ meta[i].due = NoTime THEN Append(Rm(norder, i), i) ELSE norder
 
 Reject(c, i, k) ==
     /\ Held(c, i) /\ GiveBack(i, k)
-    /\ UNCHANGED <<now, st, meta, origin, deliv, cons, transit, pend>>
+    /\ UNCHANGED <<now, st, origin, deliv, cons, transit, pend>>
 
 (* finish() of consumer c (or the reclaim after a crash) gives back a message c still holds *)
 ReturnHeld(c, i, k) ==
     /\ Held(c, i) /\ GiveBack(i, k)
-    /\ UNCHANGED <<now, st, meta, origin, deliv, cons, transit, pend>>
+    /\ UNCHANGED <<now, st, origin, deliv, cons, transit, pend>>
 
 (* requeue: the held message is replaced by its new payload/parameters under the same id.       *)
 RequeuePlace(m) == IF m.due = NoTime THEN {"n"} ELSE IF m.due > now THEN {"d"} ELSE {"n", "d"}
@@ -206,11 +209,11 @@ Init == /\ now = 1
 
 Next == \/ \E t \in (now + 1)..MaxTime : Tick(t)
         \/ \E i \in Ids, m \in MetaSet, k \in {"n", "d"} : Enqueue(i, m, k)
-        \/ \E D \in SUBSET Ids : Promote(D)
-        \/ \E i \in Ids : Expire(i)
+        \/ \E D \in SUBSET Ids : Promote(D, AllChk)
+        \/ \E i \in Ids : Expire(i, AllChk)
         \/ \E c \in Consumers : (~cons[c].on /\ Start(c)) \/ (cons[c].on /\ Stop(c))
         \/ \E c \in Consumers, i \in Ids :
-              \/ Take(c, i, TRUE) \/ Deliver(c, i)
+              \/ Take(c, i, AllChk) \/ Deliver(c, i, AllChk)
               \/ (deliv[i] /\ ~transit[i] /\ (Ack(c, i) \/ Nack(c, i)))
               \/ \E k \in Cats : (deliv[i] /\ ~transit[i] /\ Reject(c, i, k)) \/ (~transit[i] /\ ~cons[c].on /\ ReturnHeld(c, i, k))
               \/ \E m \in ReMetaSet(i), k \in {"n", "d"} : deliv[i] /\ ~transit[i] /\ Requeue(c, i, m, k)
